@@ -57,6 +57,7 @@ class Report:
         self.explanation = ''
         self.extra = {}
         self.distinct = set()
+        self.floor_failures = []
 
     # ------------------------------------------------------------------
     def ok(self, rule, subject, detail=None):
@@ -92,7 +93,8 @@ class Report:
     def floor(self, what, n, floor):
         """fail closed when a rule matched fewer instances than confirmed by hand"""
         if n < floor:
-            raise CheckerError('count-below-floor anchor=%s found=%d floor=%d' % (what, n, floor))
+            # deferred: a located violation takes precedence over "cannot judge"
+            self.floor_failures.append('count-below-floor anchor=%s found=%d floor=%d' % (what, n, floor))
         self.extra.setdefault('instance_counts', {})[what] = {'found': n, 'floor': floor}
 
     def add_paths(self, fn_path, n):
@@ -163,6 +165,12 @@ class Report:
             json.dump(ev, f, indent=1, default=str)
         for l in lines:
             print(l)
+        if self.floor_failures and not new_v:
+            for ff in self.floor_failures:
+                print('CHECKER-ERROR property=%s %s' % (self.prop, ff))
+            return 2
+        for ff in self.floor_failures:
+            print('note: %s' % ff)
         print('%s %s: %d obligations, %d discharged, %d violations (%d known), %d fns, %d paths, %.1fs' % (
             self.prop, self.tier, self.obligations, self.discharged, len(new_v), len(known_hit),
             len(self.analysed_fns), self.paths, wall))
